@@ -275,6 +275,14 @@ func init() {
 				if op == "==" || op == "!=" {
 					body += `{% if cm ` + op + ` user.Finance.History[i].Comment %}T{% else %}F{% endif %}{% if user.Name ` + op + ` user.Finance.History[i].Comment %}T{% else %}F{% endif %}`
 				}
+				// … and the LEFT one (a literal or a variable on the right; ternary, switch argument, break-if)
+				body += `|{% if user.Finance.History[i].Cost ` + op + ` 7.25 %}T{% else %}F{% endif %}{% if user.Finance.History[i].Cost ` + op + ` c %}T{% else %}F{% endif %}` +
+					`{% if lst[i] ` + op + ` "b" %}T{% else %}F{% endif %}{%= user.Finance.History[i].DateUnix ` + op + ` 2 ? ya : na %}` +
+					`{% if 7.25 ` + op + ` user.Finance.History[i].Cost %}T{% else %}F{% endif %}` +
+					`{% switch %}{% case lst[i] ` + op + ` ss %}one{% default %}dflt{% endswitch %}`
+				if op == "==" {
+					body += `{% switch user.Finance.History[i].Comment %}{% case "c0" %}zero{% case cm %}cm{% default %}d{% endswitch %}{% switch lst[i] %}{% case "a" %}A{% case ss %}S{% endswitch %}`
+				}
 				body += `]`
 				c := &RCase{Tpls: []TplDef{{Key: "main", Src: loop + body + end, KeepFmt: true}}, Meta: map[string]any{"indexed-right-operand": op, "loop": loop}}
 				c.Ops = []SOp{{Kind: "static", Name: "ya", Val: "a"}, {Kind: "static", Name: "na", Val: "b"}, {Kind: "obj", Name: "user", Val: usr}, {Kind: "static", Name: "c", Val: 7.25}, {Kind: "static", Name: "n", Val: int64(2)},
